@@ -319,8 +319,9 @@ pub fn fault_tier(ctx: &mut Ctx, base: &PortableRegistry, label: &str, events: &
         let only_hooks: Vec<String> = hook_resolved.difference(&resolved).take(3).map(|i| format!("{i}:{}", serde_json::to_string(&base.types[*i as usize].ty).unwrap_or_default().chars().take(160).collect::<String>())).collect();
         ctx.note(format!("oracle walk differs on {label}: only oracle {only_oracle:?}; only hooks {only_hooks:?}"));
     }
-    let fresh = n + 3;
-    for site in sites(base) {
+    // two flavours of a missing id: the first free one and one further out
+    for (si, site) in sites(base).into_iter().enumerate() {
+        let fresh = if si % 2 == 0 { n } else { n + 3 };
         let mut r = base.clone();
         write_site(&mut r, &site, fresh);
         let (holder, judged) = match &site {
